@@ -60,6 +60,10 @@ pub enum Deviation {
     Substitute(usize, usize),
     /// replace entry p by a signal of the same name but a different width
     Rewidth(usize),
+    /// the driver swaps two of its own `Signal` objects in place before it answers: the entries
+    /// p and q keep their addresses and their values but name each other's signal (undone
+    /// before the next call)
+    SwapInPlace(usize, usize),
 }
 
 #[derive(Clone, Debug, PartialEq, Eq)]
